@@ -51,7 +51,7 @@ def mc_configs(tier):
         return {
             "upd": dict(base, NH=3, MaxT=4, TP=3, MaxHH=4, DTS={0, 1}, ROOTIDS={"r1", "r2"}, NVS={"V"}, VSS={"V"}, PLANS={"up"},
                         SUBDIFFS=set(), MISB=False, MAXCL=1),
-            "rec": dict(base, NH=2, MaxT=4, TP=2, MaxHH=5, DTS={0, 1}, ROOTIDS={"r1"}, NVS={"V"}, VSS={"V"}, PLANS=set(),
+            "rec": dict(base, NH=3, MaxT=4, TP=2, MaxHH=5, DTS={0, 1}, ROOTIDS={"r1"}, NVS={"V"}, VSS={"V"}, PLANS=set(),
                         SUBDIFFS={"none", "lvl"}, MISB=False, MAXCL=2),
             "hdr": dict(base, NH=5, MaxT=4, TP=3, MaxHH=2, DTS={0, 1}, ROOTIDS={"r1"}, NVS={"V", "W"}, VSS={"V", "W", "U"}, PLANS=set(),
                         SUBDIFFS=set(), MISB=False, MAXCL=1),
@@ -61,7 +61,7 @@ def mc_configs(tier):
                     SUBDIFFS=set(), MISB=False, MAXCL=1),
         "misb": dict(base, NH=2, MaxT=4, TP=3, MaxHH=4, DTS={0, 1}, ROOTIDS={"r1", "r2"}, NVS={"V"}, VSS={"V"}, PLANS=set(),
                      SUBDIFFS=set(), MISB=True, MAXCL=1),
-        "rec": dict(base, NH=2, MaxT=5, TP=2, MaxHH=6, DTS={0, 1}, ROOTIDS={"r1"}, NVS={"V"}, VSS={"V"}, PLANS=set(),
+        "rec": dict(base, NH=3, MaxT=5, TP=2, MaxHH=6, DTS={0, 1}, ROOTIDS={"r1"}, NVS={"V"}, VSS={"V"}, PLANS=set(),
                     SUBDIFFS={"none", "lvl", "tp"}, MISB=False, MAXCL=2),
         "hdr": dict(base, NH=5, MaxT=5, TP=3, MaxHH=3, DTS={0, 1}, ROOTIDS={"r1"}, NVS={"V", "W"}, VSS={"V", "W", "U"}, PLANS=set(),
                     SUBDIFFS=set(), MISB=False, MAXCL=1),
